@@ -318,10 +318,39 @@ fn handle<OT: SeqVal>(ctx: &mut Ctx, sp: &Spec, rec: &Rec, res: Result<Vec<OT>, 
     }
 }
 
+thread_local! {
+    /// rotation of the ring buffer for caller-supplied VecDeque buffers (0 = as `uninit(len)` makes it)
+    static BUF_ROT: std::cell::Cell<usize> = const { std::cell::Cell::new(0) };
+}
+
+/// the caller-supplied uninitialised buffer: `uninit(len)` for every container, and for VecDeque also a
+/// ring buffer whose head sits anywhere (physically wrapped around), pre-filled with the poison pattern
+/// so that an unwritten slot is recognisable
+trait MkUninit<OT>: Vec1<OT> {
+    fn mk_uninit(len: usize) -> Self::Uninit {
+        <Self as Vec1<OT>>::uninit(len)
+    }
+}
+impl MkUninit<f64> for Vec<f64> {}
+impl MkUninit<f64> for SpyOut<f64> {}
+impl MkUninit<f64> for Array1<f64> {}
+#[cfg(feature = "polars")]
+impl MkUninit<Option<f64>> for tevec::export::polars::prelude::Float64Chunked {}
+impl MkUninit<f64> for VecDeque<f64> {
+    fn mk_uninit(len: usize) -> VecDeque<std::mem::MaybeUninit<f64>> {
+        let rot = BUF_ROT.with(|r| r.get());
+        if rot == 0 || len == 0 {
+            return <Self as Vec1<f64>>::uninit(len);
+        }
+        let poison = std::mem::MaybeUninit::new(f64::from_bits(0xA5A5_A5A5_A5A5_A5A5));
+        deque_of(&vec![poison; len], rot)
+    }
+}
+
 /// finish a caller-buffer call: the library wrote into `buf`
 macro_rules! with_buf {
     ($O:ty, $OT:ty, $len:expr, |$b:ident| $call:expr) => {{
-        let mut ub = <$O as Vec1<$OT>>::uninit($len);
+        let mut ub = <$O as MkUninit<$OT>>::mk_uninit($len);
         {
             let $b = <$O as Vec1<$OT>>::uninit_ref_mut(&mut ub);
             $call;
@@ -336,7 +365,7 @@ fn drive_all<V, T, O, OT>(ctx: &mut Ctx, v: &V, v2: &V, len: usize, w: usize, la
 where
     V: Vec1View<T> + 'static,
     T: Ident,
-    O: Vec1<OT>,
+    O: Vec1<OT> + MkUninit<OT>,
     OT: SeqVal,
     for<'a> V::SliceOutput<'a>: SliceIds,
 {
@@ -350,7 +379,7 @@ fn drive_apply<V, T, O, OT>(ctx: &mut Ctx, v: &V, v2: &V, len: usize, w: usize, 
 where
     V: Vec1View<T>,
     T: Ident,
-    O: Vec1<OT>,
+    O: Vec1<OT> + MkUninit<OT>,
     OT: SeqVal,
 {
     let paths: &[OutPath] = if allow_to { &[OutPath::Ret, OutPath::Buf, OutPath::To] } else { &[OutPath::Ret] };
@@ -416,7 +445,7 @@ fn drive_slices<V, T, O, OT>(ctx: &mut Ctx, v: &V, v2: &V, len: usize, w: usize,
 where
     V: Vec1View<T>,
     T: Ident,
-    O: Vec1<OT>,
+    O: Vec1<OT> + MkUninit<OT>,
     OT: SeqVal,
     for<'a> V::SliceOutput<'a>: SliceIds,
 {
@@ -497,6 +526,13 @@ fn run_case(ctx: &mut Ctx, rng: &mut tvmon::rng::Rng, len: usize, w: usize, kind
         return;
     }
     drive_all::<Vec<f64>, f64, VecDeque<f64>, f64>(ctx, &x, &y, len, w, "vec->deque", kind, true);
+    if len > 0 {
+        // the same with a caller-supplied ring buffer whose head is rotated (usually physically wrapped)
+        BUF_ROT.with(|r| r.set(1 + rng.below(len)));
+        ctx.count("wrapped_deque_buffers");
+        drive_all::<Vec<f64>, f64, VecDeque<f64>, f64>(ctx, &x, &y, len, w, "vec->deque(rotated buffer)", kind, true);
+        BUF_ROT.with(|r| r.set(0));
+    }
     drive_all::<Vec<f64>, f64, Array1<f64>, f64>(ctx, &x, &y, len, w, "vec->array1", kind, true);
     // default-body backends
     {
@@ -504,6 +540,11 @@ fn run_case(ctx: &mut Ctx, rng: &mut tvmon::rng::Rng, len: usize, w: usize, kind
         let (dx, dy) = (deque_of(&x, rot), deque_of(&y, rng.below(len + 1)));
         ctx.count(if deque_is_wrapped(&dx) { "deque_wrapped" } else { "deque_contiguous" });
         drive_all::<VecDeque<f64>, f64, VecDeque<f64>, f64>(ctx, &dx, &dy, len, w, "deque->deque", kind, true);
+        if len > 0 {
+            BUF_ROT.with(|r| r.set(1 + rng.below(len)));
+            drive_all::<VecDeque<f64>, f64, VecDeque<f64>, f64>(ctx, &dx, &dy, len, w, "deque->deque(rotated buffer)", kind, true);
+            BUF_ROT.with(|r| r.set(0));
+        }
         drive_all::<VecDeque<f64>, f64, Vec<f64>, f64>(ctx, &dx, &dy, len, w, "deque->vec", kind, true);
     }
     {
